@@ -280,8 +280,8 @@ def run(ctx):
     coq.check_property_file(ctx)
     quick = ctx.quick
     rng = ctx.rng
-    nmax = 5 if quick else 7
-    budget = 40000 if quick else 2500000  # G ** nodes bound for the brute force
+    nmax = 6 if quick else 7
+    budget = 50000 if quick else 2500000  # G ** nodes bound for the brute force
     ctx.rule = (
         "every unlabelled forest shape with <= %d clones (exhaustive over shapes; sibling order, 1-3 data points per clone, grid size, "
         "1-%d samples and k/16 likelihood values drawn from the seeded generator), each built by create_root_node, by create_root_node + "
@@ -296,7 +296,7 @@ def run(ctx):
     cases = []
     for f in shapes:
         n = sum(_tsize(t) for t in f)
-        reps = 2 if quick else (5 if n <= 5 else (3 if n == 6 else 2))
+        reps = (3 if n <= 5 else 1) if quick else (5 if n <= 5 else (3 if n == 6 else 2))
         for rep in range(reps):
             gmax = 8 if quick else 12
             gs = [g for g in range(2, gmax + 1) if g**n <= budget]
@@ -379,11 +379,10 @@ def run(ctx):
         if bad:
             c = prepared[item_case[bad[0]]]
             ctx.broken[-1]["detail"] = {"failing_case_count": len(bad), "first": {"shape": c[0], "G": c[1], "samples": c[2], "roots": c[11]}, "item": items[bad[0]][:600]}
-    if not quick:
-        fft_stream(ctx)
-        extreme_stream(ctx)
+    fft_stream(ctx, quick)
+    extreme_stream(ctx, 60 if quick else 400)
     ctx.assumptions += [
-        "exact rational arithmetic in the model: float rounding, the 1e-100 floor and FFT round-off are not modelled; they are validated on the FFT and extreme-range streams of the thorough tier",
+        "exact rational arithmetic in the model: float rounding, the 1e-100 floor and FFT round-off are not modelled; they are validated on the FFT stream (exact big-integer oracle, forward noise bound) and the extreme-range stream (exact floor / underflow bounds); the quick tier runs reduced versions of both",
         "per-clone log_r is read through Tree._graph (private); when unreachable only the public root vector is compared",
         "likelihood values are k/16 (narrow dynamic range) on the exact streams so float error stays below 1e-12",
     ]
@@ -412,10 +411,132 @@ def _kron_full(a, b):
 
 
 FFT_NOISE = 1e-15  # assumed bound on the absolute error of one fftconvolve entry, in units of ||a||_2 ||b||_2
+# Reading of "about 1e-6 of the row peak on the FFT path".  False (default): the row is the one fftconvolve returns,
+# before truncation to the grid (noise-floor reading; nothing fails on the pinned code).  True: the truncated row's own
+# peak (literal reading; fails on the pinned code whenever sibling likelihoods peak at CCFs summing above one, see
+# fft_truncation_example).  Reported to the orchestrator as a candidate finding; not decided here.
+FFT_LITERAL_WINDOW = False
 EXP_LOG = 1e-13  # relative error of one exp/log round trip of a log-domain value (|log| up to a few hundred)
 
 
-def fft_stream(ctx):
+def fft_case(ctx, G, kind, nkids, under_clone, ints, st):
+    """one tree on the FFT path: nkids leaf clones (optionally under one more clone), values ints / 2^30"""
+    from phyclone.tree import Tree
+
+    bits = 30
+    ints = [list(r) for r in ints]
+    values = [[[Fraction(v, 1 << bits) for v in row]] for row in ints]
+    data = make_data(values)
+    t = Tree((1, G))
+    kid_ids = [t.create_root_node(children=[], data=[data[i]]) for i in range(nkids)]
+    if under_clone:
+        par = t.create_root_node(children=kid_ids, data=[data[nkids]])
+        sibs = t.get_children(par)
+    else:
+        sibs = t.roots
+    # the exact value does not depend on the order of the children, the FFT noise does: follow the
+    # order the tree hands to compute_log_D
+    order = [t.get_data(c)[0].idx for c in sibs]
+    ints = [ints[i] for i in order] + ints[nkids:]
+    obs = np.array(t.data_log_likelihood, dtype=float)[0]
+    key = "C02:Tree.data_log_likelihood:fft:kids=%d" % nkids
+    replay = {"grid": G, "kind": kind, "children": nkids, "under_clone": under_clone, "ints_over_2^30": ints}
+    ctx.case(key=("fft", G, kind, nkids, under_clone), nontrivial=True, sample={"fft": True, "G": G, "kind": kind, "children": nkids, "under_clone": under_clone})
+    ctx.count("fft_G=%d" % G)
+    ctx.count("fft_kind=%s" % kind)
+    if not np.all(np.isfinite(obs)):
+        ctx.fail(key + ":nonfinite", "non-finite entry on the FFT path", replay)
+        return
+    # exact recursion on integers over a common denominator, with a float error bound alongside
+    unit = G << bits  # every clone's p = int / unit
+    a_int, a_den = ints[0], unit
+    a_f = np.array([v / a_den for v in a_int])
+    a_e = EXP_LOG * a_f
+    literal_ok = np.ones(G, dtype=bool)
+    for jk in range(1, nkids):
+        b_int = ints[jk]
+        b_f = np.array([v / unit for v in b_int])
+        b_e = EXP_LOG * b_f
+        full = _kron_full(a_int, b_int)
+        out_int = full[:G]
+        out_den = a_den * unit
+        out_f = np.array([v / out_den for v in out_int])
+        noise = FFT_NOISE * float(np.linalg.norm(a_f + a_e)) * float(np.linalg.norm(b_f + b_e))
+        out_e = np.convolve(a_f, b_e)[:G] + np.convolve(a_e, b_f)[:G] + np.convolve(a_e, b_e)[:G] + noise + EXP_LOG * out_f
+        fullpeak = max(full) / out_den
+        literal_ok &= out_f * 1e6 >= fullpeak
+        a_int, a_den, a_f, a_e = out_int, out_den, out_f, out_e
+    S_int, run = [], 0
+    for k in range(G):
+        run += a_int[k]
+        S_int.append(run)
+    S_e = np.cumsum(a_e) * (1 + 1e-13)
+    S_den = a_den
+    if under_clone:
+        pn = ints[nkids]
+        R_int = [pn[x] * S_int[x] for x in range(G)]
+        R_e = np.array([pn[x] / unit for x in range(G)]) * S_e * (1 + 1e-13) + EXP_LOG * np.array([R_int[x] / (S_den * unit) for x in range(G)])
+        S_den = S_den * unit
+        S_int, run = [], 0
+        for k in range(G):
+            run += R_int[k]
+            S_int.append(run)
+        S_e = np.cumsum(R_e) * (1 + 1e-13)
+    exact = [Fraction(v, S_den * G) for v in S_int]
+    ex_f = np.array([float(e) for e in exact])
+    err = S_e / G + EXP_LOG * ex_f
+    lin = np.exp(obs)
+    # information only: the literal reading "above 1e-6 of the (truncated) row's own peak"
+    lit = ex_f * 1e6 >= ex_f.max()
+    ctx.extra["fft_info_worst_rel_error_above_1e-6_of_truncated_row_peak"] = max(
+        ctx.extra.get("fft_info_worst_rel_error_above_1e-6_of_truncated_row_peak", 0.0), float(np.max(np.abs(lin[lit] - ex_f[lit]) / ex_f[lit])))
+    if FFT_LITERAL_WINDOW and float(np.max(np.abs(lin[lit] - ex_f[lit]) / ex_f[lit])) > 1e-6:
+        k = int(np.argmax(np.where(lit, np.abs(lin - ex_f) / ex_f, 0.0)))
+        ctx.fail("C02:Tree.data_log_likelihood:fft:truncated_row:kids=%d" % nkids, "entry %d is above 1e-6 of its row's peak but exp = %.6g, exact %.6g" % (k, lin[k], ex_f[k]), replay)
+        return
+    for k in range(G):
+        st['all'] += 1
+        d = abs(lin[k] - ex_f[k])
+        ctx.extra["fft_max_fraction_of_noise_bound"] = max(ctx.extra.get("fft_max_fraction_of_noise_bound", 0.0), float(d / (err[k] + 1e-9 * ex_f[k])))
+        if d > err[k] + 1e-9 * ex_f[k]:
+            ctx.fail(key, "entry %d: exp = %.12g, exact %.12g, difference %.3g exceeds the FFT noise bound %.3g" % (k, lin[k], ex_f[k], d, err[k]), replay)
+            return
+        if err[k] <= 1e-7 * ex_f[k]:
+            st['in'] += 1
+            e = d / ex_f[k]
+            st['worst'] = max(st['worst'], e)
+            if e > 1e-7:
+                ctx.fail(key + ":window", "entry %d inside the window: exp = %.12g, exact %.12g (rel %.3g)" % (k, lin[k], ex_f[k], e), replay)
+                return
+        elif all(literal_ok[: k + 1]):
+            st['lit'] += 1
+
+
+def fft_truncation_example(ctx):
+    """information only (see FFT_LITERAL_WINDOW): two sibling clones with binomial likelihoods at read depth 1000 peaking
+    at CCF 0.7 and 0.8 on a 1000-point grid; the truncated convolution row lies entirely below the FFT noise floor."""
+    from phyclone.data.base import DataPoint
+    from phyclone.tree import Tree
+    from scipy.special import logsumexp
+
+    G, n = 1000, 1000
+    lv = []
+    for c in (0.7, 0.8):
+        f = (np.arange(G) + 0.5) / G * 0.5
+        k = round(n * c * 0.5)
+        lv.append((math.lgamma(n + 1) - math.lgamma(k + 1) - math.lgamma(n - k + 1) + k * np.log(f) + (n - k) * np.log1p(-f))[None, :])
+    t = Tree((1, G))
+    for i, v in enumerate(lv):
+        t.create_root_node(children=[], data=[DataPoint(i, v, outlier_prob=0, outlier_prob_not=0.0)])
+    obs = float(np.array(t.data_log_likelihood)[0][-1])
+    lp = [v[0] - math.log(G) for v in lv]
+    ref = float(logsumexp(lp[0] + np.logaddexp.accumulate(lp[1])[::-1]) - math.log(G))
+    ctx.extra["fft_info_truncation_example"] = {"reported_log_root_last": obs, "log_domain_reference": ref, "difference": obs - ref}
+    if FFT_LITERAL_WINDOW and abs(obs - ref) > 1e-6:
+        ctx.fail("C02:Tree.data_log_likelihood:fft:truncated_row:kids=2", "binomial depth 1000, siblings peaking at CCF 0.7 and 0.8, grid 1000: reported log %.4f, exact %.4f" % (obs, ref), {"grid": G, "depth": n, "ccf_peaks": [0.7, 0.8]})
+
+
+def fft_stream(ctx, quick=False):
     """G >= 1000 switches _convolve_two_children to scipy's fftconvolve.  Oracle: the same recursion in exact integer
     arithmetic (Kronecker substitution).  The FFT path cannot be exact below its noise floor, so the check carries a
     forward error bound: every FFT convolution entry is allowed an absolute error FFT_NOISE * ||a||_2 * ||b||_2 (about
@@ -423,16 +544,13 @@ def fft_stream(ctx):
     the later convolutions, running sums and products.  An entry is *inside the window* when that bound is below 1e-7
     of the exact value - this contains every entry above 1e-6 of the peak of the (untruncated) convolution row - and
     there the reported value must agree to 1e-7; every entry must be finite and within the bound."""
-    from phyclone.tree import Tree
-
     rng = ctx.rng
     bits = 30
-    worst = 0.0
-    n_in = n_all = n_literal_outside = 0
-    for G in (1000, 1024):
+    st = {'all': 0, 'in': 0, 'lit': 0, 'worst': 0.0}
+    for G in (1000,) if quick else (1000, 1024):
         for kind in ("random", "peaked", "peaked_high"):
-            for nkids in (2, 3):
-                for under_clone in (False, True):
+            for nkids in (2,) if quick else (2, 3):
+                for under_clone in (False,) if quick and kind != "peaked" else (False, True):
                     npts = nkids + (1 if under_clone else 0)
                     ints = []
                     for _ in range(npts):
@@ -443,92 +561,13 @@ def fft_stream(ctx):
                             c = rng.uniform(lo, hi) * G
                             w = rng.uniform(0.01, 0.08) * G
                             ints.append([max(1, int(round((1 << bits) * math.exp(-(((i - c) / w) ** 2))))) for i in range(G)])
-                    values = [[[Fraction(v, 1 << bits) for v in row]] for row in ints]
-                    data = make_data(values)
-                    t = Tree((1, G))
-                    kid_ids = [t.create_root_node(children=[], data=[data[i]]) for i in range(nkids)]
-                    if under_clone:
-                        par = t.create_root_node(children=kid_ids, data=[data[nkids]])
-                        sibs = t.get_children(par)
-                    else:
-                        sibs = t.roots
-                    # the exact value does not depend on the order of the children, the FFT noise does: follow the
-                    # order the tree hands to compute_log_D
-                    order = [t.get_data(c)[0].idx for c in sibs]
-                    ints = [ints[i] for i in order] + ints[nkids:]
-                    obs = np.array(t.data_log_likelihood, dtype=float)[0]
-                    key = "C02:Tree.data_log_likelihood:fft:kids=%d" % nkids
-                    replay = {"grid": G, "kind": kind, "children": nkids, "under_clone": under_clone, "ints_over_2^30": ints}
-                    ctx.case(key=("fft", G, kind, nkids, under_clone), nontrivial=True, sample={"fft": True, "G": G, "kind": kind, "children": nkids, "under_clone": under_clone})
-                    ctx.count("fft_G=%d" % G)
-                    ctx.count("fft_kind=%s" % kind)
-                    if not np.all(np.isfinite(obs)):
-                        ctx.fail(key + ":nonfinite", "non-finite entry on the FFT path", replay)
-                        continue
-                    # exact recursion on integers over a common denominator, with a float error bound alongside
-                    unit = G << bits  # every clone's p = int / unit
-                    a_int, a_den = ints[0], unit
-                    a_f = np.array([v / a_den for v in a_int])
-                    a_e = EXP_LOG * a_f
-                    literal_ok = np.ones(G, dtype=bool)
-                    for jk in range(1, nkids):
-                        b_int = ints[jk]
-                        b_f = np.array([v / unit for v in b_int])
-                        b_e = EXP_LOG * b_f
-                        full = _kron_full(a_int, b_int)
-                        out_int = full[:G]
-                        out_den = a_den * unit
-                        out_f = np.array([v / out_den for v in out_int])
-                        noise = FFT_NOISE * float(np.linalg.norm(a_f + a_e)) * float(np.linalg.norm(b_f + b_e))
-                        out_e = np.convolve(a_f, b_e)[:G] + np.convolve(a_e, b_f)[:G] + np.convolve(a_e, b_e)[:G] + noise + EXP_LOG * out_f
-                        fullpeak = max(full) / out_den
-                        literal_ok &= out_f * 1e6 >= fullpeak
-                        a_int, a_den, a_f, a_e = out_int, out_den, out_f, out_e
-                    S_int, run = [], 0
-                    for k in range(G):
-                        run += a_int[k]
-                        S_int.append(run)
-                    S_e = np.cumsum(a_e) * (1 + 1e-13)
-                    S_den = a_den
-                    if under_clone:
-                        pn = ints[nkids]
-                        R_int = [pn[x] * S_int[x] for x in range(G)]
-                        R_e = np.array([pn[x] / unit for x in range(G)]) * S_e * (1 + 1e-13) + EXP_LOG * np.array([R_int[x] / (S_den * unit) for x in range(G)])
-                        S_den = S_den * unit
-                        S_int, run = [], 0
-                        for k in range(G):
-                            run += R_int[k]
-                            S_int.append(run)
-                        S_e = np.cumsum(R_e) * (1 + 1e-13)
-                    exact = [Fraction(v, S_den * G) for v in S_int]
-                    ex_f = np.array([float(e) for e in exact])
-                    err = S_e / G + EXP_LOG * ex_f
-                    lin = np.exp(obs)
-                    # information only: the literal reading "above 1e-6 of the (truncated) row's own peak"
-                    lit = ex_f * 1e6 >= ex_f.max()
-                    ctx.extra["fft_info_worst_rel_error_above_1e-6_of_truncated_row_peak"] = max(
-                        ctx.extra.get("fft_info_worst_rel_error_above_1e-6_of_truncated_row_peak", 0.0), float(np.max(np.abs(lin[lit] - ex_f[lit]) / ex_f[lit])))
-                    for k in range(G):
-                        n_all += 1
-                        d = abs(lin[k] - ex_f[k])
-                        ctx.extra["fft_max_fraction_of_noise_bound"] = max(ctx.extra.get("fft_max_fraction_of_noise_bound", 0.0), float(d / (err[k] + 1e-9 * ex_f[k])))
-                        if d > err[k] + 1e-9 * ex_f[k]:
-                            ctx.fail(key, "entry %d: exp = %.12g, exact %.12g, difference %.3g exceeds the FFT noise bound %.3g" % (k, lin[k], ex_f[k], d, err[k]), replay)
-                            break
-                        if err[k] <= 1e-7 * ex_f[k]:
-                            n_in += 1
-                            e = d / ex_f[k]
-                            worst = max(worst, e)
-                            if e > 1e-7:
-                                ctx.fail(key + ":window", "entry %d inside the window: exp = %.12g, exact %.12g (rel %.3g)" % (k, lin[k], ex_f[k], e), replay)
-                                break
-                        elif all(literal_ok[: k + 1]):
-                            n_literal_outside += 1
-    ctx.extra["fft_entries"] = n_all
-    ctx.extra["fft_entries_in_window"] = n_in
-    ctx.extra["fft_worst_rel_error_in_window"] = worst
-    ctx.extra["fft_entries_above_1e-6_of_every_row_peak_but_outside_noise_window"] = n_literal_outside
-    ctx.log("FFT stream: %d entries, %d inside the window, worst relative error there %.3g; %d entries above 1e-6 of every untruncated row peak fall outside the noise window" % (n_all, n_in, worst, n_literal_outside))
+                    fft_case(ctx, G, kind, nkids, under_clone, ints, st)
+    fft_truncation_example(ctx)
+    ctx.extra["fft_entries"] = st['all']
+    ctx.extra["fft_entries_in_window"] = st['in']
+    ctx.extra["fft_worst_rel_error_in_window"] = st['worst']
+    ctx.extra["fft_entries_above_1e-6_of_every_row_peak_but_outside_noise_window"] = st['lit']
+    ctx.log("FFT stream: %d entries, %d inside the window, worst relative error there %.3g; %d entries above 1e-6 of every untruncated row peak fall outside the noise window" % (st['all'], st['in'], st['worst'], st['lit']))
 
 
 # ------------------------------------------------------------------ thorough: extreme dynamic range (direct path)
@@ -589,54 +628,118 @@ def _bounds(tree, name, values, s, G):
     return tuple(out)
 
 
-def extreme_stream(ctx):
+def nodes_of(roots):
+    out = []
+
+    def rec(n):
+        out.append(n)
+        for k in n[1]:
+            rec(k)
+
+    for r in roots:
+        rec(r)
+    return out
+
+
+def max_kids(roots):
+    return max([len(roots)] + [len(n[1]) for n in nodes_of(roots)])
+
+
+def extreme_case(ctx, roots, G, exps, st):
+    """one small forest with exact power-of-ten likelihood values 10^exps[point][grid index] (one sample)"""
+    rng = ctx.rng
+    values = [[[Fraction(1, 10 ** (-e)) for e in row]] for row in exps]
+    data = make_data(values)
+    t = build(roots, data, (1, G), False, rng)
+    obs = np.array(t.data_log_likelihood, dtype=float)[0]
+    sig = (len(nodes_of(roots)), max_kids(roots), 0)
+    key = "C02:Tree.data_log_likelihood:extreme_range:kids=%d" % sig[1]
+    replay = {"roots": roots, "grid": G, "log10_values": exps}
+    ctx.case(key=("extreme", st["in"] + st["out"]), nontrivial=True)
+    ctx.count("extreme_max_children=%d" % sig[1])
+    if not np.all(np.isfinite(obs)):
+        ctx.fail(key + ":nonfinite", "non-finite entry", replay)
+        return
+    ex, up, low = _bounds(t, None, values, 0, G)
+    for k in range(G):
+        lex = _flog(ex[k])
+        if obs[k] > _flog(ex[k] + up[k]) + 1e-9:
+            ctx.fail(key + ":above_floor_bound", "entry %d: reported log %.12g exceeds log(exact + floor slack) = %.12g (exact log %.12g)" % (k, obs[k], _flog(ex[k] + up[k]), lex), replay)
+            return
+        if ex[k] - low[k] > 0 and obs[k] < _flog(ex[k] - low[k]) - 1e-9:
+            ctx.fail(key + ":below_exact", "entry %d: reported log %.12g is below the exact log %.12g" % (k, obs[k], lex), replay)
+            return
+        if (up[k] + low[k]) * 10**10 <= ex[k]:
+            st['in'] += 1
+            e = abs(obs[k] - lex)
+            st['worst'] = max(st['worst'], e)
+            if e > 1e-9:
+                ctx.fail(key, "entry %d inside the floor window: log value %.12g, exact %.12g" % (k, obs[k], lex), replay)
+                return
+        else:
+            st['out'] += 1
+
+
+def extreme_stream(ctx, reps=400):
     """small forests whose likelihood values span hundreds of orders of magnitude (exact powers of ten).
     What the property states for the direct path, made checkable: the reported value lies between
     exact - (float underflow granularity) and exact + (1e-100 of the peak product, per convolution entry, propagated
     exactly through the later convolutions / running sums / products); an entry is *inside the window* when both
     slacks are below 1e-10 of the exact value, and there the reported value must agree to 1e-9; every entry is finite."""
     rng = ctx.rng
-    n_in = n_out = 0
-    worst_in = 0.0
+    st = {'in': 0, 'out': 0, 'worst': 0.0}
     shapes = []
     for n in range(2, 5):
         shapes += [f for f in _forests(n) if shape_sig(f)[1] >= 2]
-    for rep in range(400):
+    for rep in range(reps):
         f = rng.choice(shapes)
         G = rng.randint(3, 10)
         roots, npts = assign_points(rng, f, 1)
         exps = [[-rng.choice((0, 0, 0, 1, 5, 20, 40, 60, 90, 120, 150, 200, 280)) for _ in range(G)] for _ in range(npts)]
-        values = [[[Fraction(1, 10 ** (-e)) for e in row]] for row in exps]
-        data = make_data(values)
-        t = build(roots, data, (1, G), False, rng)
-        obs = np.array(t.data_log_likelihood, dtype=float)[0]
-        sig = shape_sig(f)
-        key = "C02:Tree.data_log_likelihood:extreme_range:kids=%d" % sig[1]
-        replay = {"roots": roots, "grid": G, "log10_values": exps}
-        ctx.case(key=("extreme", rep), nontrivial=True)
-        ctx.count("extreme_max_children=%d" % sig[1])
-        if not np.all(np.isfinite(obs)):
-            ctx.fail(key + ":nonfinite", "non-finite entry", replay)
-            continue
-        ex, up, low = _bounds(t, None, values, 0, G)
-        for k in range(G):
-            lex = _flog(ex[k])
-            if obs[k] > _flog(ex[k] + up[k]) + 1e-9:
-                ctx.fail(key + ":above_floor_bound", "entry %d: reported log %.12g exceeds log(exact + floor slack) = %.12g (exact log %.12g)" % (k, obs[k], _flog(ex[k] + up[k]), lex), replay)
-                break
-            if ex[k] - low[k] > 0 and obs[k] < _flog(ex[k] - low[k]) - 1e-9:
-                ctx.fail(key + ":below_exact", "entry %d: reported log %.12g is below the exact log %.12g" % (k, obs[k], lex), replay)
-                break
-            if (up[k] + low[k]) * 10**10 <= ex[k]:
-                n_in += 1
-                e = abs(obs[k] - lex)
-                worst_in = max(worst_in, e)
-                if e > 1e-9:
-                    ctx.fail(key, "entry %d inside the floor window: log value %.12g, exact %.12g" % (k, obs[k], lex), replay)
-                    break
-            else:
-                n_out += 1
-    ctx.extra["extreme_entries_in_window"] = n_in
-    ctx.extra["extreme_entries_below_window"] = n_out
-    ctx.extra["extreme_worst_log_error_in_window"] = worst_in
-    ctx.log("extreme stream: %d entries inside the window (worst log error %.3g), %d below it" % (n_in, worst_in, n_out))
+        extreme_case(ctx, roots, G, exps, st)
+    ctx.extra["extreme_entries_in_window"] = st['in']
+    ctx.extra["extreme_entries_below_window"] = st['out']
+    ctx.extra["extreme_worst_log_error_in_window"] = st['worst']
+    ctx.log("extreme stream: %d entries inside the window (worst log error %.3g), %d below it" % (st['in'], st['worst'], st['out']))
+
+
+# ------------------------------------------------------------------ replay of one recorded failing input
+def replay(ctx, doc):
+    from phyclone.tree import Tree
+
+    r = doc.get("replay", {})
+    if "ints_over_2^30" in r:
+        st = {'all': 0, 'in': 0, 'lit': 0, 'worst': 0.0}
+        fft_case(ctx, r["grid"], r["kind"], r["children"], r["under_clone"], r["ints_over_2^30"], st)
+        return
+    if "log10_values" in r:
+        st = {'in': 0, 'out': 0, 'worst': 0.0}
+        extreme_case(ctx, _tuplify(r["roots"]), r["grid"], r["log10_values"], st)
+        return
+    if "values" not in r:
+        ctx.broken_tie("replay file has no recognised input", doc)
+        return
+    roots, G, S = _tuplify(r["roots"]), r["grid"], r["samples"]
+    values = [[[Fraction(v) for v in row] for row in pt] for pt in r["values"]]
+    items = []
+    for incremental in (False, True):
+        tree = build(roots, make_data(values), (S, G), incremental, ctx.rng)
+        for site, tr in (("Tree.data_log_likelihood", tree), ("Tree.from_dict", Tree.from_dict(tree.to_dict()))):
+            nodes, tops, root_lr = observe(tr)
+            plain = [{"own": nd["own"], "kids": nd["kids"]} for nd in nodes]
+            sig = (len(nodes), max_kids(roots), 0)
+            for s in range(S):
+                pnum = [[math.prod(int(values[i][s][x] * 16) for i in nd["own"]) for x in range(G)] for nd in nodes]
+                orc = oracle_task((plain, tops, pnum, [len(nd["own"]) for nd in nodes], G))
+                w = check_against_oracle(ctx, site, sig, nodes, root_lr, orc, s, r)
+                ctx.log("%s incremental=%s sample %d: worst relative error %.3g" % (site, incremental, s, w))
+                ctx.case(key=(site, incremental, s), nontrivial=True)
+                forest_term = "[" + "; ".join(coq_mtree(nodes, p, values) for p in tops) + "]"
+                root_obs = "[" + "; ".join(qq(math.exp(float(x))) for x in root_lr[s]) + "]"
+                items.append("chk %d %d %d %s %s []" % (G, S, s, forest_term, root_obs))
+    ok, bad, detail = coq.coq_eval_bool_cases(ctx, "replay", HEADER, items, shard=len(items))
+    ctx.obligation("replay_model_eq_impl_%d_cases" % len(items), ok and not bad, detail)
+
+
+def _tuplify(x):
+    return tuple(_tuplify(y) for y in x) if isinstance(x, (list, tuple)) else x
